@@ -572,7 +572,7 @@ def srv_attr(comp, ev, rec):
         "respAfterRibError": {"C06", "C12"}, "respInsteadOfError": {"C09", "C04"},
         "end": {"C09"}, "resp": {"C09"}, "sst:sess": {"C09"}, "msgUnexpected": {"C09"}, "openUnexpected": {"C09"},
         "openEnd": {"C09"}, "msgendUnexpected": {"C09"},
-        "getEnd": {"C07"}, "getBadEntry": {"C07"}, "getDuplicate": {"C07"}, "getEntries": {"C07"}, "getRebuild": {"C07"},
+        "getEnd": {"C07"}, "getBadEntry": {"C07"}, "getDuplicate": {"C07"}, "getEntries": {"C07"}, "getNotLastProgrammed": {"C07", "C01"}, "getRebuild": {"C07"},
         "getForeignEntry": {"C07"}, "getEndAfterSendFailure": {"C10"},
         "hang": {"C10", "C11"}, "panic": {"C12"},
     }
